@@ -260,6 +260,7 @@ func cmdCheck(args []string) {
 	byBackend := map[string]int{}
 	solverTime := 0.0
 	var undecided []string
+	var vacuous []string
 	var kfLines []string
 	for _, r := range results {
 		for _, o := range r.Obls {
@@ -280,6 +281,17 @@ func cmdCheck(args []string) {
 					byBackend[o.Solver]++
 					if len(samples) < 12 {
 						samples = append(samples, map[string]interface{}{"obligation": o.Name, "kind": o.Kind, "result": o.Result, "solver": o.Solver, "time_s": round3(o.TimeS), "clause": o.Pos})
+					}
+					continue
+				}
+				if o.ExpectSat {
+					// vacuity checks (must be SAT): "unknown" is undecided, never a property violation;
+					// UNSAT means a contradictory precondition or an encoding hole: engine alarm.
+					nObl--
+					if o.Result == "vacuous" {
+						vacuous = append(vacuous, o.Name)
+					} else {
+						undecided = append(undecided, fmt.Sprintf("%s: %s (vacuity check)", o.Name, o.Result))
 					}
 					continue
 				}
@@ -348,6 +360,12 @@ func cmdCheck(args []string) {
 		prop, tier, nDis, nObl, len(kfLines), len(undecided), len(absent), time.Since(t0).Seconds())
 	if violations > 0 {
 		os.Exit(1)
+	}
+	if len(vacuous) > 0 {
+		for _, v := range vacuous {
+			fmt.Printf("UNDECIDED vacuity property=%s %s: the precondition/path became unsatisfiable; proofs of this function are vacuous\n", prop, v)
+		}
+		os.Exit(3)
 	}
 }
 
